@@ -567,7 +567,8 @@ class SymExec:
             key = "discr(" + pl + ")"
             if key not in path.env:
                 path.env[key] = self.fresh(key, "isize")
-            return path.env[key]
+            w = ty_width(dty or "isize") or 64
+            return path.env[key] if w >= 64 else z3.Extract(w - 1, 0, path.env[key])
         return None
 
     def operand_ty(self, path, s):
@@ -655,11 +656,11 @@ class SymExec:
                             p2.cond.append(v == z3.BitVecVal(int(lab), v.size()))
                         if not self.feasible(p2):
                             continue
-                    p2.events.append(("branch", bname, lab, tg))
+                    p2.events.append(("branch", bname, lab, tg, t["operand"]))
                     work.append((p2, tg, visits))
             elif k == "call":
                 args = [self.operand(path, a) for a in t["args"]]
-                path.events.append(("call", bname, t["func"], args, t["args"]))
+                path.events.append(("call", bname, t["func"], args, t["args"], t["dest"]))
                 res = self.call_model(self, path, t, args)
                 if res is None:
                     res = self.builtin_model(path, t, args)
@@ -675,7 +676,7 @@ class SymExec:
                     res = self.fresh("ret_" + re.sub(r"\W+", "_", t["func"])[-40:], dty) if dty else None
                 if t["dest"]:
                     self.assign(path, t["dest"], res)
-                    path.events.append(("callret", bname, t["func"], res))
+                    path.events.append(("callret", bname, t["func"], res, t["dest"]))
                 tg = dict(t["targets"]).get("return")
                 if tg:
                     work.append((path, tg, visits))
@@ -794,12 +795,17 @@ class MirJob:
         except Inconclusive as e:
             return {"status": "INCONCLUSIVE", "reason": str(e), "obligations": 0, "discharged": 0, "failed": [],
                     "sample": {"engine": "E2/E3 MIR+z3", "name": self.name, "claim": self.claim, "status": "INCONCLUSIVE", "reason": str(e)}}
+        uniq = {}
+        for o in obs:
+            if o["id"] not in uniq or (uniq[o["id"]]["ok"] and not o["ok"]):
+                uniq[o["id"]] = o
+        obs = list(uniq.values())
         bad = [o for o in obs if not o["ok"]]
         funcs = sorted({f for o in obs for f in o.get("functions", [])})
         res = {
             "status": "FAIL" if bad else "PASS",
             "obligations": len(obs), "discharged": len(obs) - len(bad), "solver_s": round(stats.solver_s, 3),
-            "functions": funcs, "nontrivial": len(obs) > 0, "nontrivial_count": 1,
+            "functions": funcs, "nontrivial": len(obs) > 0, "nontrivial_count": len(obs) - len(bad),
             "failed": [{"check": o["id"], "desc": o["detail"], "loc": o.get("where", "")} for o in bad],
             "wall_s": round(time.time() - t0, 2),
         }
@@ -840,3 +846,41 @@ class MirJob:
                             f.write("  --- %s\n%s\n" % (rel, code))
             res["replay_path"] = rpath
         return res
+
+
+# --------------------------------------------------------------------------
+# helpers over the event list of one explored path
+# --------------------------------------------------------------------------
+def _mentions(text, local):
+    return re.search(r"(?<![\w])%s(?![\d])" % re.escape(local), text) is not None
+
+
+def path_taint(events, seeds):
+    """Forward taint along one path: locals assigned from / computed by calls on tainted locals."""
+    tainted = set(seeds)
+    for ev in events:
+        if ev[0] == "assign":
+            dest, rhs = ev[2], ev[3]
+            if any(_mentions(rhs, x) for x in tainted):
+                m = re.match(r"_\d+", dest.strip())
+                tainted.add(dest.strip())
+                if m:
+                    tainted.add(m.group(0))
+        elif ev[0] == "call":
+            if ev[5] and any(any(_mentions(a, x) for x in tainted) for a in ev[4]):
+                tainted.add(ev[5])
+    return tainted
+
+
+def branch_on(events, tainted, after_index=0):
+    """First branch event (index, label) whose switch operand mentions a tainted local."""
+    for i, ev in enumerate(events):
+        if i < after_index:
+            continue
+        if ev[0] == "branch" and any(_mentions(ev[4], x) for x in tainted):
+            return i, ev[2]
+    return None, None
+
+
+def calls_on(events, regex):
+    return [(i, ev) for i, ev in enumerate(events) if ev[0] == "call" and re.search(regex, ev[2])]
